@@ -17,6 +17,8 @@ type C01Case struct {
 	Prog *ragen.Program `json:"prog"`
 	Cfg  ragen.Config   `json:"cfg"`
 	Lab  []string       `json:"labels,omitempty"`
+	// ViaFile: the program is given as regex-assembly/942999.ra (`generate 942999`) instead of on stdin
+	ViaFile bool `json:"via_file,omitempty"`
 }
 
 func c01Opt() ragen.GenOpt {
@@ -35,6 +37,7 @@ func c01Opt() ragen.GenOpt {
 		IncludeDefs:  true,
 		Cmdline:      true,
 		StoreLoad:    true,
+		TrailWS:      true,
 	}
 	if thorough() {
 		o.MaxDepth, o.MaxItems = 4, 10
@@ -59,7 +62,19 @@ func c01Opt() ragen.GenOpt {
 
 func genC01(t *rapid.T) C01Case {
 	g := ragen.GenProgram(t, c01Opt())
-	return C01Case{Prog: g.Prog, Cfg: g.Cfg, Lab: labelsOf(g.Labels)}
+	c := C01Case{Prog: g.Prog, Cfg: g.Cfg, Lab: labelsOf(g.Labels)}
+	c.ViaFile = rapid.IntRange(0, 3).Draw(t, "viafile") == 0
+	if n := len(g.Prog.Main); c.ViaFile && n > 0 && g.Prog.Main[n-1].K == ragen.KEntry && rapid.Bool().Draw(t, "lasttrail") {
+		// the file's last line is an entry that ends in white space (significant, like anywhere else)
+		if e := g.Prog.Main[n-1].T + rapid.SampledFrom([]string{" ", "\t"}).Draw(t, "lastws"); ragen.ValidEntryWS(e) || strings.Contains(e, "{{") {
+			g.Prog.Main[n-1].T = e
+			c.Lab = append(c.Lab, "last-line-ends-in-blank")
+		}
+	}
+	if c.ViaFile {
+		c.Lab = append(c.Lab, "via-file")
+	}
+	return c
 }
 
 func maxStates() int {
@@ -77,7 +92,7 @@ func checkC01(c C01Case) Outcome {
 		return out
 	}
 	for _, l := range res.Body {
-		if l.K == ragen.KEntry && !ragen.ValidEntry(l.T) && l.T != "(?:)" {
+		if l.K == ragen.KEntry && !ragen.ValidEntryWS(l.T) && l.T != "(?:)" {
 			// a suffix replacement turned an entry into text that is not an expression: outside "well-formed"
 			out.Labels = append(out.Labels, "outside-domain:rewritten-entry-not-parsable")
 			return out
@@ -97,6 +112,9 @@ func checkC01(c C01Case) Outcome {
 		}
 	}
 	r := generate(c.Prog)
+	if c.ViaFile {
+		r = generateFile(c.Prog)
+	}
 	out.Detail["program"] = c.Prog.MainText()
 	out.Detail["reference"] = ref
 	out.Detail["stdout"] = r.Stdout
